@@ -19,6 +19,7 @@ type Clause struct {
 	Ord  int
 	Name string // optional label
 	Case int    // >0: clause applies to that spec case only
+	Axiom bool  // assumed at call sites, not checked in the body (determinism of a read-only function)
 	File string
 	Line int
 }
@@ -165,7 +166,7 @@ func parseHeader(line string) (kind, recv, name string, params, results []string
 
 var recvTypeRe = regexp.MustCompile(`^(?:func|trusted func)\s+\(\s*\w+\s+\*?([\w.]+)\s*\)`)
 
-var clauseRe = regexp.MustCompile(`^(requires|ensures|invariant|assert)(?:\[([\w, ]+)\])?\s+(.*)$`)
+var clauseRe = regexp.MustCompile(`^(requires|ensures|axiom|invariant|assert)(?:\[([\w, ]+)\])?\s+(.*)$`)
 var loopRe = regexp.MustCompile(`^loop\s+(\d+)\s+invariant(?:\[([\w, ]+)\])?\s+(.*)$`)
 var specRe = regexp.MustCompile(`^spec\s+([\w.]+)\s*\(([^)]*)\)\s*(\w*)\s*:=\s*(.*)$`)
 
@@ -214,7 +215,7 @@ func (e *Engine) loadContractFile(path, pkgShort string) error {
 		lines = append(lines, logical{t, i + 1})
 	}
 	isStart := func(s string) bool {
-		for _, k := range []string{"func ", "trusted func ", "interface ", "spec ", "ghostvar ", "propset ", "requires", "ensures", "modifies", "loop ", "ghost ", "also", "pure", "noinline", "inline", "taints", "before", "after", "ghostinc_callsite ", "ghostinc ", "ghostset ", "implements ", "unverified", "witness ", "lemma ", "assert", "at "} {
+		for _, k := range []string{"func ", "trusted func ", "interface ", "spec ", "ghostvar ", "propset ", "requires", "ensures", "axiom", "modifies", "loop ", "ghost ", "also", "pure", "noinline", "inline", "taints", "before", "after", "ghostinc_callsite ", "ghostinc ", "ghostset ", "implements ", "unverified", "witness ", "lemma ", "assert", "at "} {
 			if strings.HasPrefix(s, k) {
 				return true
 			}
@@ -453,7 +454,8 @@ func (e *Engine) loadContractFile(path, pkgShort string) error {
 			switch m[1] {
 			case "requires":
 				curCase.Requires = append(curCase.Requires, cl)
-			case "ensures":
+			case "ensures", "axiom":
+				cl.Axiom = m[1] == "axiom"
 				cl.Ord = len(curCase.Ensures) + 1
 				for _, c := range cur.Cases[:len(cur.Cases)-1] {
 					cl.Ord += len(c.Ensures)
